@@ -10,3 +10,10 @@ claim("C05", "exploration",
       "judged clause by clause (size, range, alignment, reservation and vertex disjointness, only documented error, completeness).",
       "Scope bounded to capacity 8 and <=3 vertices; reservations satisfy the documented precondition (disjoint, inside the chip).",
       "DESIGN.md section 4, C05")
+claim("C04", "exploration",
+      "Every orthogonal full-mask table over 3 key bits (4 entry kinds per key, both orders), key subsets over 4 bits, every "
+      "generality-ordered list of <=3 (thorough <=4) ternary-pattern entries, the empty table and two-call histories are pushed "
+      "through each real minimiser and the method chain with targets None/0/1/len-1/len/len+1; every key of the key space is looked "
+      "up before and after (first match + default routing), results are re-minimised, lengths and failure reports checked.",
+      "First-match lookup in /verif is the reference; key space limited to 3-4 bits and tables to <=8 entries.",
+      "DESIGN.md section 4, C04")
